@@ -753,6 +753,10 @@ def call_method(vm, obj, name, args, kwargs):
         if name in ('split', 'startswith', 'endswith', 'replace', 'strip', 'lower', 'upper', 'isdigit', 'splitlines',
                     'rstrip', 'lstrip', 'partition', 'find', 'count', 'ljust', 'rjust', 'encode'):
             return getattr(obj, name)(*args, **kwargs)
+    if isinstance(obj, str) and name == 'format':
+        # formatting symbolic values (diagnostic texts): an opaque string
+        from .pyvc import StrSort
+        return SStr(vm.fresh('fmt', StrSort))
     if isinstance(obj, (bytes, SBytes)):
         if name == 'ljust':
             width, fill = args[0], args[1] if len(args) > 1 else b' '
